@@ -7,8 +7,9 @@ META = {
     "level": "fault_enumeration",
     "level_text": "Integrity.tla models an archive as byte regions with, per configuration, the detectors covering them (sector adler32 via read, "
                   "attributes CRC32/MD5 via SFileVerifyFile, version-4 digests, weak signature); TLC checks for every configuration x region kind x effect "
-                  "that the intended coverage map is sound and that the code's map (sector checksums of multi-sector files read but not compared; failed "
-                  "sector decompression replaced by zeros) is sound exactly up to the predicted gap. Binding: for every configuration enumerated by TLC a real "
+                  "that the intended coverage map (= the code after 48c5310 / 5c764f6 / 7734a50 plus the proposed gate patch) is sound, and that each named deviation "
+                  "(legacy code: sector checksums read but not compared, failed sector decompression zero-filled; code at 7734a50: an altered sector offset table can "
+                  "switch the verification of its file off) is sound exactly up to its predicted gap and violates plain soundness. Binding: for every configuration enumerated by TLC a real "
                   "archive is built with the library and altered at EVERY byte offset (flip bit 0 / bit 7 / set 00 / set FF, 4-byte zeroing, sector swaps); "
                   "after each alteration every detector of the real code is run (Archive::open, read_file, get_info md5_status/signature_status, storm-ffi "
                   "SFileVerifyFile) and Trace_Integrity decides: intact => all pass; altered protected region => some detector fails or all content tokens are "
@@ -16,8 +17,8 @@ META = {
                   "alignment relative to the 64 KiB digest unit (all 71 straddling placements) with the 16 bytes before and 128 bytes after it flipped; signed archives "
                   "> 64 KiB whose (signature) entry straddles the unit boundary; >= 2000 distinct signed messages verified intact; version-4 archives with 1022..2049 "
                   "files verified intact.",
-    "level_note": "Single contiguous alterations only (one byte, 4 bytes, or two sectors swapped). Archives are 1.5-3 KB with one single-unit and one 3-sector file; "
-                  "stored (uncompressed) multi-sector files are not used because they do not read back at all (F-C01-a). Signed archives: V1 without sector CRCs "
+    "level_note": "Single contiguous alterations only (one byte, 4 bytes, or two sectors swapped). Archives are 3-4 KB with one single-unit, one 3-sector (compressed/raw/compressed) and one stored 3-sector file; "
+                  "a stored (uncompressed) multi-sector file is included since 9cf2783. Signed archives: V1 without sector CRCs "
                   "(signature patched in by the harness with generate_weak_signature). A digest of the v4 header counts as a detector only if it verified on the "
                   "intact archive. Panics / aborts / hangs of a detector on altered input count as 'reported' here (C05 owns totality).",
     "technique": "TLA+ coverage-map specification (Integrity.tla) model-checked with TLC; exhaustive byte-offset fault enumeration on real archives; "
@@ -43,11 +44,14 @@ def sig(b):
 
 def run(ctx, cases_override=None):
     ctx.mc("MC_Integrity", timeout=600)
+    # named deviations: the legacy code (before 48c5310 / 5c764f6) and the code at 7734a50 (offset-table gate)
     ctx.mc("MC_Integrity", cfg="MC_Integrity_ascoded", timeout=600)
-    rc, text = ctx.tlc("MC_Integrity", "MC_Integrity_ascoded_sound", workers=2, timeout=300)
-    if "Invariant Sound is violated" not in text:
-        raise core.ToolError("stage A: TLC did not refute Sound for the as-coded coverage map:\n" + core._tail(text))
-    core.log("(A) as-coded coverage map refuted against Sound, as required")
+    ctx.mc("MC_Integrity", cfg="MC_Integrity_gatehole", timeout=600)
+    for cfgname in ("MC_Integrity_ascoded_sound", "MC_Integrity_gatehole_sound"):
+        rc, text = ctx.tlc("MC_Integrity", cfgname, workers=2, timeout=300)
+        if "Invariant Sound is violated" not in text:
+            raise core.ToolError(f"stage A: TLC did not refute Sound for {cfgname}:\n" + core._tail(text))
+    core.log("(A) legacy and gate-hole coverage maps refuted against Sound, as required")
     if cases_override:
         cases, ncases = cases_override, sum(1 for _ in open(cases_override))
     else:
